@@ -3,6 +3,7 @@ package main
 // C07 — rule priority is a strict weak order; the winner is never outranked.
 
 import (
+	"os"
 	"fmt"
 	"go/token"
 	"go/types"
@@ -141,6 +142,7 @@ func runC07(c *Ctx) {
 	checkOptionWordMonotone(c, "C07.R6", "disabledOptions", 0,
 		"a negated modifier overwrites the ones parsed before it ($~third-party,~match-case keeps only the last): the added modifier does not raise the rule, so the selected rule can be outranked")
 	g := NewGate(c.P)
+	g.Unroll = true // a key summed by a loop over a small fixed table of its terms
 	s := g.Eval(ihp)
 	u := g.U
 	c.Fn(sortedKeys(g.Funcs)...)
@@ -250,7 +252,7 @@ func runC07(c *Ctx) {
 						}
 					}
 				}
-				c.Fail("C07.R1", "IsHigherPriority: key comparison "+clip(u.Show(at), 160), ihp.Pos(),
+				c.Fail("C07.R1", "IsHigherPriority: key comparison "+clip(u.Show(at), dbgClip()), ihp.Pos(),
 					"one side of the key comparison mixes both operands (term(s) read from the wrong rule: "+strings.Join(wrong, "; ")+"): the key of a rule depends on what it is compared with, so irreflexivity/transitivity fail")
 				ok = false
 			}
@@ -875,4 +877,11 @@ func nonNegKey(u *U, e *E) bool {
 		return nonNegKey(u, e.Args[0])
 	}
 	return false
+}
+
+func dbgClip() int {
+	if os.Getenv("UFCHECK_DEBUG_C07") != "" {
+		return 6000
+	}
+	return 160
 }
